@@ -205,13 +205,20 @@ impl Index {
             } else {
                 (0usize, after)
             };
+            // optional: after "PATTERN" -- an earlier arm of the same match must have exactly this pattern
+            let (after_pat, after) = if let Some(x) = after.strip_prefix("after ") {
+                let (p2, r) = parse_quoted(x).ok_or_else(|| Undecided("arm locator: after needs a quoted pattern".into()))?;
+                (Some(p2), r.trim())
+            } else {
+                (None, after)
+            };
             let inner = after.strip_prefix("of ").ok_or_else(|| Undecided("arm locator needs 'of <fn locator>'".into()))?;
             let inner = match &in_file {
                 Some(f) => format!("{} in {}", inner, f),
                 None => inner.to_string(),
             };
             let f = self.locate(&format!("{} nosig", inner))?;
-            return lift_arm(f, &pat, nth);
+            return lift_arm(f, &pat, nth, after_pat.as_deref());
         }
         if let Some(rest) = loc.strip_prefix("stmts ") {
             let (first, after) = parse_quoted(rest).ok_or_else(|| Undecided("stmts locator needs quoted first statement prefix".into()))?;
@@ -626,35 +633,55 @@ fn locate_in(files: &[SrcFile], loc: &str, in_file: Option<&str>) -> Result<Foun
     })
 }
 
-fn lift_arm(f: Found, pat: &str, nth: usize) -> Result<Found, Undecided> {
+fn lift_arm(f: Found, pat: &str, nth: usize, after_pat: Option<&str>) -> Result<Found, Undecided> {
     use syn::visit::Visit;
     let block: syn::Block = syn::parse_str(&f.body_text).map_err(|e| Undecided(format!("body of {} does not parse: {}", f.origin, e)))?;
     struct V<'a> {
         want: String,
+        after: Option<String>,
         hits: Vec<(std::ops::Range<usize>, bool)>,
+        after_missing: bool,
         _p: std::marker::PhantomData<&'a ()>,
     }
+    fn arm_pat(a: &syn::Arm) -> String {
+        let mut p = norm(&a.pat.to_token_stream().to_string());
+        if let Some((_, g)) = &a.guard {
+            p.push_str("if");
+            p.push_str(&norm(&g.to_token_stream().to_string()));
+        }
+        p
+    }
     impl<'a, 'ast> Visit<'ast> for V<'a> {
-        fn visit_arm(&mut self, a: &'ast syn::Arm) {
-            let mut p = norm(&a.pat.to_token_stream().to_string());
-            if let Some((_, g)) = &a.guard {
-                p.push_str("if");
-                p.push_str(&norm(&g.to_token_stream().to_string()));
+        fn visit_expr_match(&mut self, m: &'ast syn::ExprMatch) {
+            let mut seen: Vec<String> = vec![];
+            for a in &m.arms {
+                let p = arm_pat(a);
+                if p == self.want {
+                    let is_block = matches!(&*a.body, syn::Expr::Block(b) if b.label.is_none() && b.attrs.is_empty());
+                    if let Some(ap) = &self.after {
+                        // trailing commas inside the pattern are not significant
+                        let strip = |x: &str| x.replace(",}", "}").replace(",)", ")");
+                        if !seen.iter().any(|s| strip(s) == strip(ap)) {
+                            self.after_missing = true;
+                        }
+                    }
+                    self.hits.push((a.body.span().byte_range(), is_block));
+                }
+                seen.push(p);
             }
-            if p == self.want {
-                let is_block = matches!(&*a.body, syn::Expr::Block(b) if b.label.is_none() && b.attrs.is_empty());
-                self.hits.push((a.body.span().byte_range(), is_block));
-            }
-            syn::visit::visit_arm(self, a);
+            syn::visit::visit_expr_match(self, m);
         }
     }
-    let mut v = V { want: norm(pat), hits: vec![], _p: std::marker::PhantomData };
+    let mut v = V { want: norm(pat), after: after_pat.map(norm), hits: vec![], after_missing: false, _p: std::marker::PhantomData };
     v.visit_block(&block);
     if v.hits.len() <= nth {
         bail!("lost anchor: match arm `{}` (nth {}) not found in {} ({} candidates)", pat, nth, f.origin, v.hits.len());
     }
     if nth == 0 && v.hits.len() > 1 {
         bail!("ambiguous anchor: match arm `{}` found {} times in {}; use 'nth K'", pat, v.hits.len(), f.origin);
+    }
+    if v.after_missing {
+        bail!("lost anchor: match arm `{}` is no longer preceded by an arm `{}` in {}", pat, after_pat.unwrap_or(""), f.origin);
     }
     let (r, is_block) = v.hits[nth].clone();
     let body_line = f.body_line_start + line_of(&f.body_text, r.start) - 1;
